@@ -169,6 +169,10 @@ def rule_ref(ctx, rep):
             rep.check(back is None, "C04.ref", fl + ".complete.work-read-before-free", "work->completion is read before free(work)", "work read after free(work)", [frw[0].where()])
         f = ctx.fn(F.lib, F.pfx + "_barrier")
         put = [e.inst for e in pat.accesses(f, None, ("rmw",)) if "call_rcu_completion.ref" in _fields(e.ap)]
+        if not put:
+            rep.bad("C04.ref", fl + ".barrier.drops-its-reference", "rcu_barrier never drops its own reference on the completion (count starts at helpers + 1): the completion object is never freed - "
+                    "and with the count off by one no marker is the last one", [f.name])
+            continue
         base = mm.effect_of(put[0]).ap["base"]
         after = f.reachable_set(put)
         bad = [i for i in f.all_insts() if i.id in after and i.op in ("load", "store") and i.d["ap"]["base"] == base]
